@@ -318,3 +318,42 @@ def _mk_real(fmt: str):
 
 for _f in REAL:
     _mk_real(_f)
+
+
+@obligation(prop="C04", sites=("fresh",), budget={"quick": 60, "thorough": 120},
+            encodes=["cincoconfig.core.ConfigFormat.get"],
+            what="two successive ConfigFormat.get calls for one format with different option VALUES (xml root_tag, "
+                 "yaml root_key, json pretty; order symbolic): each returned formatter carries the options of its own "
+                 "call, so a document written with one root tag is rejected when read with another, also through "
+                 "Config.dumps/loads")
+def registry_options_not_sticky(which: int, swap: bool) -> bool:
+    """
+    pre: 0 <= which <= 2
+    post: _
+    """
+    from cincoconfig import IntField, Schema
+    a, b = ("alpha", "beta") if not swap else ("beta", "alpha")
+    if which == 0:
+        f1 = ConfigFormat.get("xml", root_tag=a)
+        f2 = ConfigFormat.get("xml", root_tag=b)
+        hold("fresh", f1.root_tag == a and f2.root_tag == b, "second request got the first request's root tag")
+        schema = Schema()
+        schema.x = IntField(default=1)
+        cfg = schema()
+        with untraced():
+            doc = cfg.dumps(format="xml", root_tag=a)
+            try:
+                schema().loads(doc, format="xml", root_tag=b)
+                rejected = False
+            except ValueError:
+                rejected = True
+        hold("fresh", rejected, "document with root tag %s accepted when reading with root tag %s" % (a, b))
+    elif which == 1:
+        f1 = ConfigFormat.get("yaml", root_key=a)
+        f2 = ConfigFormat.get("yaml", root_key=b)
+        hold("fresh", f1.root_key == a and f2.root_key == b, "second request got the first request's root key")
+    else:
+        f1 = ConfigFormat.get("json", pretty=swap)
+        f2 = ConfigFormat.get("json", pretty=not swap)
+        hold("fresh", f1.pretty is swap and f2.pretty is (not swap), "second request got the first request's option")
+    return True
